@@ -83,7 +83,8 @@ class BeamSplitter(Component):
 
     def get_unitary(self, n_modes: int) -> np.ndarray:  # noqa: D102
         self.validate()
-        theta = np.arccos(self._reflectivity**0.5)
+        # Always calculate in double precision, whatever type holds the value
+        theta = np.arccos(float(self._reflectivity) ** 0.5)
         unitary = np.identity(n_modes, dtype=complex)
         if self.convention == "Rx":
             unitary[self.mode_1, self.mode_1] = np.cos(theta)
@@ -115,7 +116,7 @@ class PhaseShifter(Component):
 
     def get_unitary(self, n_modes: int) -> np.ndarray:  # noqa: D102
         unitary = np.identity(n_modes, dtype=complex)
-        unitary[self.mode, self.mode] = np.exp(1j * self._phi)
+        unitary[self.mode, self.mode] = np.exp(1j * float(self._phi))
         return unitary
 
 
@@ -144,7 +145,7 @@ class Loss(Component):
 
     def get_unitary(self, n_modes: int) -> np.ndarray:  # noqa: D102
         self.validate()
-        transmission = 1 - self._loss
+        transmission = 1 - float(self._loss)
         # Assumes loss mode to use is last mode in circuit
         unitary = np.identity(n_modes, dtype=complex)
         unitary[self.mode, self.mode] = transmission**0.5
